@@ -26,6 +26,8 @@ pub struct Config {
     pub max_live_kb: usize,
     pub pin_roots: bool,
     pub weak: bool,
+    /// C08: mutators probe is_mmtk_object / find_object_from_internal_pointer on their objects
+    pub lookups: bool,
     pub finalizers: bool,
     pub ephemerons: bool,
     pub log_events: bool,
@@ -68,6 +70,7 @@ impl Config {
             max_live_kb: a.usize_or("live-kb", 2048),
             pin_roots: a.flag("pin-roots"),
             weak: a.flag("weak"),
+            lookups: a.flag("lookups"),
             finalizers: a.flag("finalizers"),
             ephemerons: a.flag("ephemerons"),
             log_events: a.flag("events"),
